@@ -241,11 +241,46 @@ def write_project(ex, case, prefix="c16_", extreme=False):
         return "%-9s %-3s %s %s 000 000 %d" % (fid + lrnd.choice(["Y", "Z"]), lrnd.choice(["SM", "WW", "ZR"]), fmt_date(d, f),
                                               fmt_date(d + datetime.timedelta(days=120), f), lrnd.choice([0, 1]))
     cl = c10.interleave(lrnd, rows, other_crop)
-    open(os.path.join(dst, "crop_%s.txt" % name), "w").write(
-        "Field_ID    crp  sowing harvst Rex yld autorg variety comment\n" + "".join(l + "\n" for _, l in cl) + "end\n")
+    # the rotation file: classic columns or csv (CropFileFormat), under the default name or under a fileExtension override; with an
+    # override, the files of the default names hold a DIFFERENT rotation (crop codes exchanged) that must not be read
+    xr = random.Random(case["row_seed"] + 3)
+    case["crop_fmt"] = xr.choice(["txt", "txt", "csv"])
+    case["ext"] = xr.choice([None, None, "alt", "v2"])
+    def crop_text(lines, fmt):
+        if fmt == "txt":
+            return "Field_ID    crp  sowing harvst Rex yld autorg variety comment\n" + "".join(l + "\n" for l in lines) + "end\n"
+        return ("Field_ID,crp,sowing,harvst,Rex,yld,autorg,variety,comment\n" +
+                "".join(",".join((l.split() + [""] * 8)[:8]) + "\n" for l in lines) + "end\n")
+    for e_ in ("txt", "csv"):
+        pth = os.path.join(dst, "crop_%s.%s" % (name, e_))
+        if os.path.exists(pth):
+            os.remove(pth)
     hdr = open(os.path.join(src, "automan.txt")).read().split("\n")[0]
     order = list(case["rows"].values())
     random.Random(case["row_seed"]).shuffle(order)
+    real_ext = case["ext"] or ("csv" if case["crop_fmt"] == "csv" else "txt")
+    open(os.path.join(dst, "crop_%s.%s" % (name, real_ext)), "w").write(crop_text([l for _, l in cl], case["crop_fmt"]))
+    if case["ext"]:
+        codes = [c_[0] for c_ in case["crops"][1:]]
+        swap = {}
+        if len(set(codes)) >= 2:
+            rot_ = codes[1:] + codes[:1]
+            swap = dict(zip(codes, rot_))
+        elif codes:
+            alt = [c_ for c_ in ["SM", "SW", "WW", "WG", "K"] if c_ != codes[0]][0]
+            swap = {codes[0]: alt}
+            if alt not in case["rows"]:
+                order.append("%-3s" % alt + case["rows"][codes[0]][3:])
+        def decoy(l):
+            t = l.split()
+            if t[0] == fid and t[1] in swap and not l.endswith(" 080 050 %s" % t[-1]):
+                return l.replace(" %-3s " % t[1], " %-3s " % swap[t[1]], 1)
+            return l
+        dec = [decoy(l) for _, l in cl]
+        open(os.path.join(dst, "crop_%s.txt" % name), "w").write(crop_text(dec, "txt"))
+        open(os.path.join(dst, "crop_%s.csv" % name), "w").write(crop_text(dec, "csv"))
+        shutil.copy(os.path.join(dst, "poly_%s.txt" % name), os.path.join(dst, "poly_%s.%s" % (name, case["ext"])))
+        open(os.path.join(dst, "automan.%s" % case["ext"]), "w").write(hdr + "\n" + "".join(r + "\n" for r in order))
     open(os.path.join(dst, "automan.txt"), "w").write(hdr + "\n" + "".join(r + "\n" for r in order))
     # the four switches: on the batch line in one of the accepted spellings (table featureSwitchStrToID of config.go), the
     # OPPOSITE value in the project's config.yml
@@ -259,14 +294,21 @@ def write_project(ex, case, prefix="c16_", extreme=False):
         spelled.append("%s=%s" % (key, sp))
         cfg, n_ = re.subn(r"(?m)^%s:.*$" % key, "%s: %d" % (key, 0 if val else 1), cfg)
         assert n_ == 1, key
+    # fertilisation scenario (percent): from the batch line (decoy 77 in the file) or from config.yml
+    fr = random.Random(case["spell_seed"] + 9)
+    case["fertilization"] = fr.choice([100, 100, 0, 30, 50, 150])
+    case["fert_from"] = fr.choice(["line", "config"])
+    cfg = re.sub(r"(?m)^Fertilization:.*$", "Fertilization: %d" % (case["fertilization"] if case["fert_from"] == "config" else 77), cfg)
+    if case["fert_from"] == "line":
+        spelled.append("Fertilization=%d" % case["fertilization"])
     open(cfgp, "w").write(cfg)
     case["spelled"] = spelled
     annual = "3110" if f < 2 else "1031"
     a, b, c, d = case["sw"]
     return ("project=%s WeatherFolder=%s soilId=%s fcode=%s plotNr=10001 Altitude=73 Latitude=52.6 poligonID=1 "
-            "CropFileFormat=txt %s ManagementEvents=1 "
+            "CropFileFormat=%s %s%s ManagementEvents=1 "
             "OutputIntervall=0 Dateformat=%d StartYear=%d EndDate=%s AnnualOutputDate=%s resultfolder=%s"
-            % (name, case["weather"] if extreme else "historical", case["soil"], case["fcode"], " ".join(case["spelled"]), f, case["begin"].year, fmt_date(case["end"], f), annual,
+            % (name, case["weather"] if extreme else "historical", case["soil"], case["fcode"], case["crop_fmt"], ("fileExtension=%s " % case["ext"]) if case["ext"] else "", " ".join(case["spelled"]), f, case["begin"].year, fmt_date(case["end"], f), annual,
                os.path.join(ex, "R", name)))
 
 
